@@ -1643,19 +1643,19 @@ theorem C17_classify_terminates {m : Map Val} (h : WF 3 m) (hst : 8 < m.a.size) 
     rw [run_bind, hav]
     simp only
     cases av with
-    | false => exact Or.inr (Or.inr ⟨rfl, rfl⟩)
+    | false => exact Or.inr (Or.inr ⟨rfl, trivial⟩)
     | true =>
         simp only [Bool.not_true, Bool.false_eq_true, if_false]
         rw [run_bind, hae]
         simp only
         cases ae with
-        | false => exact Or.inr (Or.inr ⟨rfl, rfl⟩)
+        | false => exact Or.inr (Or.inr ⟨rfl, trivial⟩)
         | true =>
             simp only [Bool.not_true, Bool.false_eq_true, if_false]
             rw [run_bind, haf]
             simp only
             cases af with
-            | false => exact Or.inr (Or.inr ⟨rfl, rfl⟩)
+            | false => exact Or.inr (Or.inr ⟨rfl, trivial⟩)
             | true => exact Or.inl rfl
   · rw [run_bind, hc]
     exact ⟨m3, Or.inr (Or.inl rfl)⟩
